@@ -95,15 +95,29 @@ ENV_FAULTS = {
 }
 
 
+EXC_CLASSES = {
+    # plausible exception classes of the environment: a FIFO/socket-like
+    # destination fails with EPIPE or a timeout, callbacks may raise OSError
+    'dst_write': [None, 'brokenpipe', 'timeout'],
+    'fs_write': [None, 'brokenpipe'],
+    'on_progress': [None, 'oserror', 'timeout'],
+    'on_queued': [None, 'oserror'],
+}
+
+
 def env_fault_sweep(sc, rng, per=2):
     jobs = []
     kind = sc['transfers'][0]['kind']
     for on, upto in ENV_FAULTS[kind]:
         for nth in range(1, upto + 1):
-            s = copy.deepcopy(sc)
-            s['faults'] = [{'on': on, 'nth': nth, 'x': 0}]
-            for ch in choosers(per, rng):
-                jobs.append((s, ch))
+            for exc in EXC_CLASSES.get(on, [None]):
+                s = copy.deepcopy(sc)
+                f = {'on': on, 'nth': nth, 'x': 0}
+                if exc:
+                    f['exc'] = exc
+                s['faults'] = [f]
+                for ch in choosers(per if exc is None else max(1, per // 2), rng):
+                    jobs.append((s, ch))
     return jobs
 
 
